@@ -4,9 +4,12 @@
 open Zconv
 module M = Sections
 
-let pinned = Array.length Sys.argv > 1 && Sys.argv.(1) = "--pinned"
+let pinned = Array.exists (fun x -> x = "--pinned") Sys.argv
 (* --mid: flatten without the backward step of fixes/C10-flatten-empty-section-offset (a tree that does not have it yet) *)
-let mid = Array.length Sys.argv > 1 && Sys.argv.(1) = "--mid"
+let has_arg a = Array.exists (fun x -> x = a) Sys.argv
+let mid = has_arg "--mid"
+(* --flags-pinned: Section::clear_flags of a tree without fixes/C10-section-clear-flags (ORs the complement) *)
+let flags_pinned = has_arg "--flags-pinned"
 
 let err_name = function
   | M.EOk -> "ok" | M.EInvalidArgument -> "EINVAL" | M.EInvalidSectionName -> "ENAME"
@@ -78,11 +81,12 @@ let () =
       let emit s = (if Buffer.length out > 0 then Buffer.add_char out ' '); Buffer.add_string out s in
       let st = ref { M.jh = M.init_holder; jtab = None; jaddrs = [] } in
       let huge = ref false in
+      let flags : (int, M.z) Hashtbl.t = Hashtbl.create 8 in    (* Section flags by id; .text starts executable|read-only|built-in, others with none *)
       let calls = ref [] in           (* (position in .text, absolute target) of every emitted `call abs`, in order *)
       (try
         while !toks <> [] do
           match next () with
-          | "D" -> ignore (next ()); st := { M.jh = M.init_holder; jtab = None; jaddrs = [] }; emit "D"
+          | "D" -> ignore (next ()); st := { M.jh = M.init_holder; jtab = None; jaddrs = [] }; Hashtbl.reset flags; calls := []; emit "D"
           | "N" ->
             let name = unhex (next ()) in
             let al = cz_of_string (next ()) in
@@ -156,8 +160,9 @@ let () =
                 | M.EOk -> emit ("J:ok:" ^ string_of_cz size ^ ":" ^ rle_runs (runs_of img))
                 | _ -> emit ("J:" ^ err_name e)
               end else begin
-                (* all targets are farther than 2^31 from any place the allocator can return: the image does not depend on the base *)
-                let (((e, size), img), h') = M.jit_add_reloc !st !calls (cz_of_string "139637976727552") c_cd in
+                (* the harness subtracts the base from every absolute word again and call targets are out of rel32 reach of any base the
+                   allocator can return (and of 0): the canonical image is the one relocated to base 0 *)
+                let (((e, size), img), h') = M.jit_add_reloc !st !calls (cz_of_int 0) c_cd in
                 st := { !st with M.jh = h' };
                 match e with
                 | M.JOk -> emit ("J:ok:" ^ string_of_cz size ^ ":" ^ rle_runs (runs_of img))
@@ -173,6 +178,17 @@ let () =
             st := M.emit_call_bytes !st a;
             (match M.by_id !st.M.jh (cz_of_int 0) with
              | Some t -> emit ("K:ok:" ^ string_of_cz t.M.sbsize) | None -> emit "K:?")
+          | "G" ->
+            let id = int_of_string (next ()) in
+            let add = cz_of_string (next ()) in
+            let clr = cz_of_string (next ()) in
+            (match M.by_id !st.M.jh (cz_of_int id) with
+             | None -> emit "G:bad"
+             | Some _ ->
+               let f0 = (match Hashtbl.find_opt flags id with Some f -> f | None -> cz_of_int (if id = 0 then 0x4003 else 0)) in
+               let f1 = (if flags_pinned then M.clear_flags_pinned else M.clear_flags) (M.add_flags f0 add) clr in
+               Hashtbl.replace flags id f1;
+               emit (Printf.sprintf "G:%s:%d" (string_of_cz f1) (if M.has_flag f1 clr then 1 else 0)))
           | "E" ->
             let id = cz_of_string (next ()) in
             (match (if !huge then None else M.by_id !st.M.jh id), M.by_id !st.M.jh (cz_of_int 0) with
@@ -182,6 +198,20 @@ let () =
                (match M.by_id !st.M.jh (cz_of_int 0) with
                 | Some t -> emit ("E:ok:" ^ string_of_cz t.M.sbsize ^ ":" ^ string_of_cz sec.M.sbsize) | None -> emit "E:?")
              | _ -> emit "E:bad")
+          | "ED" ->
+            let id1 = cz_of_string (next ()) in
+            let id2 = cz_of_string (next ()) in
+            let size = cz_of_string (next ()) in
+            (match (if !huge then None else M.by_id !st.M.jh id1), M.by_id !st.M.jh id2, M.by_id !st.M.jh (cz_of_int 0) with
+             | Some s1, Some s2, Some text ->
+               (* labels of the same section are subtracted at once (both sit at its end: 0), no relocation is recorded *)
+               if not (Z.equal (z_of_cz id1) (z_of_cz id2)) then
+                 calls := !calls @ [ M.SExpr (text.M.sbsize, id1, s1.M.sbsize, id2, s2.M.sbsize, size) ];
+               st := M.emit_zero_bytes !st size;
+               (match M.by_id !st.M.jh (cz_of_int 0) with
+                | Some t -> emit (Printf.sprintf "ED:ok:%s:%s:%s" (string_of_cz t.M.sbsize) (string_of_cz s1.M.sbsize) (string_of_cz s2.M.sbsize))
+                | None -> emit "ED:?")
+             | _ -> emit "ED:bad")
           | "X" ->
             let base = cz_of_string (next ()) in
             ignore (next ());
